@@ -16,6 +16,7 @@ import sctp_common as sc
 import vlib
 
 PID = "C12"
+CK = None
 WRAP_A = 0xFFFFFFFD
 WRAP_B = 0xFFFFFFFE
 SIZES = [0, 1, 1172, 1173, 3000]
@@ -176,6 +177,9 @@ def build_scenarios(singles, pairs, frag, tier):
                 scen.append(sc.scenario(f"f{k:04d}", f, chans, msgs, deadline_ms=4000,
                                         cfg={"init_tsn_a": WRAP_A - 1, "init_tsn_b": 7000} if k % 7 == 0 else None))
                 k += 1
+    # INIT collision (both ends send INIT): Open exactly once on either side
+    scen += sc.collision_scenarios(sc.gen_collision_schedules(CK, tier), rng, limit=12 if tier == "quick" else 200,
+                                   seed=vlib.seed() + 61, idle_ms=0)
     # one side closes a channel (stream reset) while the peer is still sending on it: Close at most once at
     # both ends, nothing delivered after Close, the other channels unaffected
     for i, f in enumerate([[]] + sc.sample(singles, 5 if tier == "quick" else 40, vlib.seed() + 6)):
@@ -298,6 +302,8 @@ def run(tier):
     id_thread = threading.Thread(target=id_job)
     id_thread.start()
     design_checks(ck, tier)
+    global CK
+    CK = ck
     singles, pairs, frag, gen_finished = generate(ck, tier)
     scen = build_scenarios(singles, pairs, frag, tier)
     if tier == "thorough":
